@@ -74,12 +74,17 @@ Proof. reflexivity. Qed.
 Lemma value_read_spec c st enc pair s ch g off maxlen st' rc d :
   value_read c st (enc, pair) s ch g off maxlen = (st', rc, d) ->
   same_but_reads st st' /\
-  (k1 ch = false -> aread_value c (vals st) enc pair s ch g off maxlen = (to_ares rc, d)).
+  (k1 ch = false \/ sec_error (spec_protected c s ch) enc pair <> None ->
+   aread_value c (vals st) enc pair s ch g off maxlen = (to_ares rc, d)).
 Proof.
   unfold value_read, aread_value. rewrite security_check_spec, <- spec_protected_eq. cbn [fst snd].
   destruct (sec_error (spec_protected c s ch) enc pair) as [e|].
   - intros H; inv H. split; [apply same_but_reads_refl|reflexivity].
-  - unfold spec_readable, not_long, spec_value, k1, get_val.
+  - unfold k1.
+    assert (X : forall P : Prop, (match c_value ch with VHandler _ rd _ _ => rd && c_no_read ch | _ => false end = false -> P) ->
+                (match c_value ch with VHandler _ rd _ _ => rd && c_no_read ch | _ => false end = false \/ @None N <> None -> P))
+      by (intros P HP [K|K]; [exact (HP K)|contradiction]).
+    unfold spec_readable, not_long, spec_value, get_val.
     destruct (c_value ch) as [size k|size v|bytes|size hrd hwr blob].
     + destruct (c_no_read ch); cbn [negb].
       * intros H; inv H. split; [apply same_but_reads_refl|reflexivity].
@@ -90,9 +95,9 @@ Proof.
     + rewrite mem_read_sub. cbn [negb]. destruct (len bytes <? off); intros H; inv H; (split; [apply same_but_reads_refl|reflexivity]).
     + destruct hrd; cbn [negb andb].
       * destruct (negb blob && negb (off =? 0)).
-        -- intros H; inv H. split; [apply same_but_reads_refl|]. intros K. rewrite K. reflexivity.
+        -- intros H; inv H. split; [apply same_but_reads_refl|]. apply X. intros K. cbn [andb] in K. rewrite K. reflexivity.
         -- rewrite mem_read_sub. destruct (len (nth g (vals st) []) <? off); intros H; inv H;
-             (split; [apply log_read_same|]); intros K; rewrite K; reflexivity.
+             (split; [apply log_read_same|]); apply X; intros K; cbn [andb] in K; rewrite K; reflexivity.
       * intros H; inv H. split; [apply same_but_reads_refl|reflexivity].
 Qed.
 
@@ -104,9 +109,15 @@ Definition dec_elem (e : list N) : N * N * list N :=
   (nth 0 e 0 + 256 * nth 1 e 0, nth 2 e 0 + 256 * nth 3 e 0, skipn 4 e).
 Definition elem_ok (c : cfg) (e : list N) : Prop := 4 <= len e /\ attr_of c (fst (fst (dec_elem e))) <> None.
 
+(* a characteristic value behind a write handler: the known finding of C07 (the probe calls the handler) *)
+Definition k2 (ch : char_decl) : bool := match c_value ch with VHandler _ _ wr _ => wr | _ => false end.
+Definition no_k2 (c : cfg) : Prop :=
+  forall i s ch g cci, attribute_at c i = Some (AValue s ch g cci) -> k2 ch = false.
+
+(* the handler call counters agree as long as no Prepare Write probe reaches a write handler *)
 Record sim (c : cfg) (st : srv_state) (a : astate) : Prop := mkSim {
   sim_vals : as_vals a = vals st;
-  sim_wlog : as_wlog a = wlog_of st;
+  sim_wlog : no_k2 c -> as_wlog a = wlog_of st;
   sim_conns : as_conns a = map aconn_of_conn (conns st);
   sim_owner : as_owner a = wq_owner st;
   sim_queue : as_queue a = map dec_elem (wq_elems st);
@@ -123,7 +134,8 @@ Proof. intros [H1 H2 H3 H4 H5 H6]. constructor; assumption. Qed.
 
 Lemma sim_reads c st st' a : sim c st a -> same_but_reads st st' -> sim c st' a.
 Proof.
-  intros [H1 H2 H3 H4 H5 H6] (R1 & R2 & R3 & R4 & R5). constructor; congruence.
+  intros [H1 H2 H3 H4 H5 H6] (R1 & R2 & R3 & R4 & R5). constructor; try congruence.
+  intros NK. rewrite R5. auto.
 Qed.
 
 Lemma sim_conn c st a cid k : sim c st a -> get_conn st cid = Some k -> aconn_of a cid = aconn_of_conn k.
@@ -205,21 +217,21 @@ Proof.
         2:{ intros H; inv H. split; [reflexivity|apply sim_set_mark; exact S]. }
         destruct (negb blob && negb (off =? 0)).
         { intros H; inv H. split; [reflexivity|apply sim_set_mark; exact S]. }
-        rewrite mem_write_splice. rewrite (sim_vals S), (sim_wlog S). unfold get_val.
+        rewrite mem_write_splice. rewrite (sim_vals S). unfold get_val.
         pose proof (wlog_of_log_write st g data) as W.
         set (st1 := log_call st g (fun '(r, w, e) => (r, w + 1, if len data =? 0 then e + 1 else e))) in *.
         assert (V1 : vals st1 = vals st) by reflexivity.
         destruct (len (nth g (vals st) []) <? off).
         { intros H; inv H. split; [reflexivity|]. destruct S as [H1 H2 H3 H4 H5 H6]. constructor; cbn; try assumption.
           - rewrite upd_same. reflexivity.
-          - symmetry. exact W. }
+          - intros NK. rewrite (H2 NK). symmetry. exact W. }
         destruct (len (nth g (vals st) []) <? off + len data).
         { intros H; inv H. split; [reflexivity|]. destruct S as [H1 H2 H3 H4 H5 H6]. constructor; cbn; try assumption.
           - rewrite upd_same. reflexivity.
-          - symmetry. exact W. }
+          - intros NK. rewrite (H2 NK). symmetry. exact W. }
         intros H; inv H. split; [reflexivity|]. destruct S as [H1 H2 H3 H4 H5 H6]. constructor; cbn; try assumption.
         -- reflexivity.
-        -- symmetry. exact W.
+        -- intros NK. rewrite (H2 NK). symmetry. exact W.
   - (* client characteristic configuration *)
     unfold aperm. rewrite K. cbn [ac_enc ac_pair aconn_of_conn fst snd].
     rewrite security_check_spec, <- spec_protected_eq.
@@ -318,18 +330,19 @@ Lemma len_cons (A : Type) (x : A) t : len (x :: t) = 1 + len t.
 Proof. unfold len. cbn [length]. lia. Qed.
 
 (* ================================================================== Part 3: the operations *)
-Definition sat (x : expect) (r : srv_out) : Prop :=
+Definition sat (c : cfg) (x : expect) (r : srv_out) : Prop :=
   match x with
   | XAny => True
   | XResp _ _ _ rsp => r = OBytes rsp
   | XProps p => forall p' t, r = OBytes (11 :: p' :: t) -> p' = p
   | XVal _ v wl =>
       exists lg, r = OValue v lg /\
-                 match wl, lg with
-                 | Some (w, e), Some (_, w', e') => w = w' /\ e = e'
-                 | None, None => True
-                 | _, _ => False
-                 end
+                 (no_k2 c ->
+                  match wl, lg with
+                  | Some (w, e), Some (_, w', e') => w = w' /\ e = e'
+                  | None, None => True
+                  | _, _ => False
+                  end)
   end.
 
 (* no characteristic has a read handler together with no_read_access (the known finding of C06) *)
@@ -446,15 +459,38 @@ Proof.
   - mon. destruct (error_response_exact _ _ _ _ out_size _ _ ltac:(lia) E) as [L T]. repeat split; assumption.
 Qed.
 
+(* the expectation is a refusal for insufficient security *)
+Definition exp_sec (x : expect) : bool := match x with XResp _ e _ _ => is_sec e | _ => false end.
+Definition read_kind (x : expect) : bool := match x with XResp k _ _ _ => Nat.eqb k k_read | _ => false end.
+
+(* when the expectation is binding for the model: a read expectation needs a configuration without the known
+   finding of C06, unless the expected answer is a security error (security is checked first) *)
+Definition sat_cond (c : cfg) (x : expect) : Prop :=
+  match x with
+  | XResp k e _ _ => Nat.eqb k k_read = true -> no_k1 c \/ is_sec e = true
+  | _ => True
+  end.
+
+Lemma aread_value_sec c store enc pair s ch g off maxlen r d :
+  aread_value c store enc pair s ch g off maxlen = (r, d) -> is_sec r = true ->
+  sec_error (spec_protected c s ch) enc pair <> None.
+Proof.
+  unfold aread_value. destruct (sec_error _ _ _); [discriminate|].
+  destruct (negb (spec_readable ch)); [intros H; inv H; discriminate|].
+  destruct (not_long ch off); [intros H; inv H; discriminate|].
+  destruct (_ <? _); intros H; inv H; discriminate.
+Qed.
+
 (* Read / Read Blob of an existing attribute *)
 Lemma read_common_sim c st a cid k pdu op b out_size rsp h off n jd st' b' m :
-  sim c st a -> get_conn st cid = Some k -> no_k1 c ->
+  sim c st a -> get_conn st cid = Some k ->
   rd pdu 0 = Some op -> 23 <= out_size -> out_size = out_limit c a cid n ->
   h <> 0 -> index_by_handle c h <> invalid_index -> (jd = true -> off = 0 /\ rsp = 11) ->
   handle_read_common c st cid pdu b out_size rsp h (index_by_handle c h) off = Some (st', (b', m)) ->
-  same_but_reads st st' /\ m <= len b' /\ sat (aread c a cid op rsp h off n jd) (OBytes (takeN m b')).
+  same_but_reads st st' /\ m <= len b' /\
+  (sat_cond c (aread c a cid op rsp h off n jd) -> sat c (aread c a cid op rsp h off n jd) (OBytes (takeN m b'))).
 Proof.
-  intros S G NK Hop Ho Hl H0 Hi Hjd. unfold handle_read_common. rewrite Hop.
+  intros S G Hop Ho Hl H0 Hi Hjd. unfold handle_read_common. rewrite Hop.
   unfold aread. rewrite (attr_of_index c h H0 Hi).
   destruct (attribute_at c (index_by_handle c h)) as [at_|] eqn:EA; [|discriminate].
   destruct (access_read c st cid at_ (index_by_handle c h) off (out_size - 1)) as [[[st1 rc] d]|] eqn:ER; [|discriminate].
@@ -463,9 +499,9 @@ Proof.
   pose proof (sim_conn c st a cid k S G) as K.
   intros H. destruct (read_resp_exact _ _ _ _ _ _ _ _ _ _ _ Ho NE H) as (-> & L & T). clear H.
   split; [exact Same|]. split; [exact L|].
-  destruct at_ as [s|u|s ch|s ch g cci|s ch cci|nm|u v]; try exact I.
+  destruct at_ as [s|u|s ch|s ch g cci|s ch cci|nm|u v]; try (intros _; exact I).
   - (* characteristic declaration *)
-    destruct jd; [|exact I]. cbn [sat]. intros p' t HB.
+    intros _. destruct jd; [|exact I]. cbn [sat]. intros p' t HB.
     assert (HT : takeN m b' = 11 :: p' :: t) by (inversion HB; reflexivity). clear HB. rewrite T in HT. clear T.
     destruct (Hjd eq_refl) as [-> ->].
     unfold access_read in ER. rewrite G in ER.
@@ -479,15 +515,19 @@ Proof.
     apply (f_equal (fun l => nth 0 l 0)) in Hv. cbn [nth] in Hv. rewrite <- Hv. apply char_properties_spec.
   - (* characteristic value *)
     unfold access_read in ER. rewrite G in ER. apply some_inj in ER.
-    apply value_read_spec in ER. destruct ER as [_ ER]. specialize (ER (NK _ _ _ _ _ EA)).
-    rewrite K. cbn [ac_enc ac_pair aconn_of_conn]. rewrite (sim_vals S), <- Hl, ER.
-    cbn [sat]. rewrite T. reflexivity.
+    apply value_read_spec in ER. destruct ER as [_ ER].
+    rewrite K. cbn [ac_enc ac_pair aconn_of_conn]. rewrite (sim_vals S), <- Hl.
+    destruct (aread_value c (vals st) (encrypted k) (pairing k) s ch g off (out_size - 1)) as [r0 d0] eqn:EV.
+    cbn [sat_cond sat]. intros Hc. specialize (Hc (Nat.eqb_refl _)).
+    assert (ER' : (r0, d0) = (to_ares rc, d)).
+    { apply ER. destruct Hc as [NK|Hs]; [left; eapply NK; eauto|right]. eapply aread_value_sec; eauto. }
+    apply pair_inj in ER'. destruct ER' as [-> ->]. rewrite T. reflexivity.
   - (* client characteristic configuration *)
     unfold access_read in ER. rewrite G in ER. rewrite K. cbn [ac_enc ac_pair aconn_of_conn fst snd] in *.
     rewrite security_check_spec, <- spec_protected_eq in ER.
-    destruct (sec_error (spec_protected c s ch) (encrypted k) (pairing k)) as [e|]; [|exact I].
+    destruct (sec_error (spec_protected c s ch) (encrypted k) (pairing k)) as [e|]; [|intros _; exact I].
     apply some_inj in ER. apply pair_inj in ER. destruct ER as [ER <-]. apply pair_inj in ER. destruct ER as [_ <-].
-    cbn [sat]. rewrite T. reflexivity.
+    intros _. cbn [sat]. rewrite T. reflexivity.
 Qed.
 
 Lemma attr_of_zero c : attr_of c 0 = None.
@@ -518,26 +558,30 @@ Proof.
 Qed.
 
 Lemma handle_read_sim c st a cid k lo hi b out_size n st' b' m :
-  sim c st a -> get_conn st cid = Some k -> no_k1 c -> 23 <= out_size -> out_size = out_limit c a cid n ->
+  sim c st a -> get_conn st cid = Some k -> 23 <= out_size -> out_size = out_limit c a cid n ->
   handle_read c st cid [10; lo; hi] b out_size = Some (st', (b', m)) ->
-  same_but_reads st st' /\ m <= len b' /\ sat (aread c a cid 10 11 (lo + 256 * hi) 0 n true) (OBytes (takeN m b')).
+  same_but_reads st st' /\ m <= len b' /\
+  (sat_cond c (aread c a cid 10 11 (lo + 256 * hi) 0 n true) ->
+   sat c (aread c a cid 10 11 (lo + 256 * hi) 0 n true) (OBytes (takeN m b'))).
 Proof.
-  intros S G NK Ho Hl. unfold handle_read, check_size_and_handle. rewrite rd_0. cbn [len length N.of_nat Pos.of_succ_nat Pos.succ N.eqb Pos.eqb negb].
+  intros S G Ho Hl. unfold handle_read, check_size_and_handle. rewrite rd_0. cbn [len length N.of_nat Pos.of_succ_nat Pos.succ N.eqb Pos.eqb negb].
   destruct (check_handle c [10; lo; hi] b out_size) as [r|] eqn:EC; [|discriminate].
   destruct (check_handle_cases _ _ _ _ _ _ _ _ Ho EC) as [(b1 & m1 & -> & L & EA)|(-> & H0 & Hi)].
-  - intros H. mon. split; [apply same_but_reads_refl|]. split; [exact L|]. rewrite aread_none by exact EA. exact I.
+  - intros H. mon. split; [apply same_but_reads_refl|]. split; [exact L|]. rewrite aread_none by exact EA. intros _. exact I.
   - intros H. eapply read_common_sim; eauto. apply rd_0.
 Qed.
 
 Lemma handle_read_blob_sim c st a cid k lo hi olo ohi b out_size n st' b' m :
-  sim c st a -> get_conn st cid = Some k -> no_k1 c -> 23 <= out_size -> out_size = out_limit c a cid n ->
+  sim c st a -> get_conn st cid = Some k -> 23 <= out_size -> out_size = out_limit c a cid n ->
   handle_read_blob c st cid [12; lo; hi; olo; ohi] b out_size = Some (st', (b', m)) ->
-  same_but_reads st st' /\ m <= len b' /\ sat (aread c a cid 12 13 (lo + 256 * hi) (olo + 256 * ohi) n false) (OBytes (takeN m b')).
+  same_but_reads st st' /\ m <= len b' /\
+  (sat_cond c (aread c a cid 12 13 (lo + 256 * hi) (olo + 256 * ohi) n false) ->
+   sat c (aread c a cid 12 13 (lo + 256 * hi) (olo + 256 * ohi) n false) (OBytes (takeN m b'))).
 Proof.
-  intros S G NK Ho Hl. unfold handle_read_blob, check_size_and_handle. rewrite rd_0. cbn [len length N.of_nat Pos.of_succ_nat Pos.succ N.eqb Pos.eqb negb].
+  intros S G Ho Hl. unfold handle_read_blob, check_size_and_handle. rewrite rd_0. cbn [len length N.of_nat Pos.of_succ_nat Pos.succ N.eqb Pos.eqb negb].
   destruct (check_handle c [12; lo; hi; olo; ohi] b out_size) as [r|] eqn:EC; [|discriminate].
   destruct (check_handle_cases _ _ _ _ _ _ _ _ Ho EC) as [(b1 & m1 & -> & L & EA)|(-> & H0 & Hi)].
-  - intros H. mon. split; [apply same_but_reads_refl|]. split; [exact L|]. rewrite aread_none by exact EA. exact I.
+  - intros H. mon. split; [apply same_but_reads_refl|]. split; [exact L|]. rewrite aread_none by exact EA. intros _. exact I.
   - rewrite rd16_3. intros H. eapply read_common_sim; eauto. apply rd_0. discriminate.
 Qed.
 
@@ -638,10 +682,6 @@ Lemma astep_in_execute c a cid flag n :
 Proof. unfold astep_in. cbn [N.eqb Pos.eqb]. destruct (wqueue c); reflexivity. Qed.
 
 (* ------------------------------------------------------------------ Prepare Write *)
-(* a characteristic value behind a write handler: the known finding of C07 (the probe calls the handler) *)
-Definition k2 (ch : char_decl) : bool := match c_value ch with VHandler _ _ wr _ => wr | _ => false end.
-Definition no_k2 (c : cfg) : Prop :=
-  forall i s ch g cci, attribute_at c i = Some (AValue s ch g cci) -> k2 ch = false.
 
 Lemma splice_nothing (v : list N) : splice v 0 [] = v.
 Proof. unfold splice. cbn. reflexivity. Qed.
@@ -662,24 +702,26 @@ Qed.
 
 (* ... and changes nothing the simulation relation looks at, unless a write handler is called *)
 Lemma awrite_probe_sim c st a cid at_ m :
-  (forall s ch g cci, at_ = AValue s ch g cci -> k2 ch = false) ->
+  (forall s ch g cci, at_ = AValue s ch g cci -> no_k2 c -> k2 ch = false) ->
   sim c st (snd (awrite c a cid at_ 0 [] m)) -> sim c st a.
 Proof.
   intros NK. destruct at_ as [s|u|s ch|s ch g cci|s ch cci|nm|u v]; cbn [awrite snd]; try (intros S; exact S).
   - specialize (NK s ch g cci eq_refl).
     destruct (aperm c _ _ _) eqn:E; [|intros [H1 H2 H3 H4 H5 H6]; constructor; assumption].
     destruct (not_long ch 0); [intros [H1 H2 H3 H4 H5 H6]; constructor; assumption|].
-    assert (W : match c_value ch with
+    assert (W : k2 ch = false ->
+                match c_value ch with
                 | VHandler _ _ _ _ => upd (as_wlog a) g (let '(w, e) := nth g (as_wlog a) (0, 0) in (w + 1, if len (@nil N) =? 0 then e + 1 else e))
                 | _ => as_wlog a
-                end = as_wlog a \/ spec_writable ch = false).
-    { unfold k2 in NK. unfold spec_writable. destruct (c_value ch); auto. }
-    destruct W as [W|W].
-    2:{ unfold aperm in E. rewrite W in E. destruct (sec_error _ _ _); discriminate. }
-    rewrite W.
-    destruct (len (nth g (as_vals a) []) <? 0); [intros [H1 H2 H3 H4 H5 H6]; constructor; assumption|].
-    destruct (len (nth g (as_vals a) []) <? 0 + len (@nil N)); [intros [H1 H2 H3 H4 H5 H6]; constructor; assumption|].
-    rewrite splice_nothing, upd_same. intros [H1 H2 H3 H4 H5 H6]; constructor; assumption.
+                end = as_wlog a).
+    { intros K2. unfold k2 in K2. unfold aperm in E. unfold spec_writable in E. destruct (c_value ch); auto.
+      rewrite K2 in E. destruct (sec_error _ _ _); discriminate. }
+    destruct (len (nth g (as_vals a) []) <? 0);
+      [intros [H1 H2 H3 H4 H5 H6]; constructor; try assumption; intros N2; cbn in H2; rewrite <- (W (NK N2)); exact (H2 N2)|].
+    destruct (len (nth g (as_vals a) []) <? 0 + len (@nil N));
+      [intros [H1 H2 H3 H4 H5 H6]; constructor; try assumption; intros N2; cbn in H2; rewrite <- (W (NK N2)); exact (H2 N2)|].
+    rewrite splice_nothing, upd_same. intros [H1 H2 H3 H4 H5 H6]; constructor; try assumption.
+    intros N2. cbn in H2. rewrite <- (W (NK N2)). exact (H2 N2).
   - destruct (aperm c _ _ _); [|intros S; exact S]. destruct (2 <? 0); [intros S; exact S|]. destruct (2 <? 0 + len (@nil N)); intros S; exact S.
 Qed.
 
@@ -698,13 +740,13 @@ Lemma len5_not_lt5 (op a1 a2 a3 a4 : N) (data : list N) : (len (op :: a1 :: a2 :
 Proof. apply N.ltb_ge. rewrite !len_cons. lia. Qed.
 
 Lemma handle_prepare_write_sim c st a cid k qs lo hi olo ohi data b n st' b' m :
-  sim c st a -> get_conn st cid = Some k -> no_k2 c -> wqueue c = Some qs -> 23 <= out_limit c a cid n ->
+  sim c st a -> get_conn st cid = Some k -> wqueue c = Some qs -> 23 <= out_limit c a cid n ->
   handle_prepare_write c st cid (22 :: lo :: hi :: olo :: ohi :: data) b (out_limit c a cid n) = Some (st', (b', m)) ->
   m <= len b' /\
   sim c st' (fst (aprepare c a cid qs (lo + 256 * hi) (olo + 256 * ohi) data (22 :: lo :: hi :: olo :: ohi :: data) n)) /\
-  sat (snd (aprepare c a cid qs (lo + 256 * hi) (olo + 256 * ohi) data (22 :: lo :: hi :: olo :: ohi :: data) n)) (OBytes (takeN m b')).
+  sat c (snd (aprepare c a cid qs (lo + 256 * hi) (olo + 256 * ohi) data (22 :: lo :: hi :: olo :: ohi :: data) n)) (OBytes (takeN m b')).
 Proof.
-  intros S G NK Hq Ho. set (out_size := out_limit c a cid n) in *. unfold handle_prepare_write. rewrite rd_0, Hq, len5_not_lt5.
+  intros S G Hq Ho. set (out_size := out_limit c a cid n) in *. unfold handle_prepare_write. rewrite rd_0, Hq, len5_not_lt5.
   set (pdu := 22 :: lo :: hi :: olo :: ohi :: data).
   destruct (check_handle c pdu b out_size) as [r|] eqn:EC; [|discriminate].
   destruct (check_handle_cases _ _ _ _ _ _ _ _ Ho EC) as [(b1 & m1 & -> & L & EA)|(-> & H0 & Hi)].
@@ -716,7 +758,7 @@ Proof.
     pose proof (access_write_not_equal _ _ _ _ _ _ _ _ EW) as NE.
     destruct (access_write_sim c st a cid at_ 0 [] st1 rc m_none S EW) as [R S1].
     rewrite awrite_probe_result in R.
-    apply awrite_probe_sim in S1; [|intros s ch g cci ->; eapply NK; eauto].
+    apply awrite_probe_sim in S1; [|intros s ch g cci -> NK; eapply NK; eauto].
     cbv zeta. rewrite R.
     destruct rc as [|code|]; [| |contradiction]; cbn [to_ares].
     + (* a write is permitted *)
@@ -817,7 +859,7 @@ Qed.
 Lemma handle_execute_write_sim c st a cid k qs flag b out_size st' b' m :
   sim c st a -> get_conn st cid = Some k -> wqueue c = Some qs -> 23 <= out_size ->
   handle_execute_write c st cid [24; flag] b out_size = Some (st', (b', m)) ->
-  m <= len b' /\ sim c st' (fst (aexec c a cid flag)) /\ sat (snd (aexec c a cid flag)) (OBytes (takeN m b')).
+  m <= len b' /\ sim c st' (fst (aexec c a cid flag)) /\ sat c (snd (aexec c a cid flag)) (OBytes (takeN m b')).
 Proof.
   intros S G Hq Ho. unfold handle_execute_write, aexec. rewrite rd_0, Hq, rd_1.
   cbn [len length N.of_nat Pos.of_succ_nat Pos.succ N.eqb Pos.eqb negb].
@@ -924,11 +966,12 @@ Lemma out_limit_eq c st a cid k n : sim c st a -> get_conn st cid = Some k -> ou
 Proof. intros S G. unfold out_limit, negotiated_mtu. rewrite (sim_conn c st a cid k S G). reflexivity. Qed.
 
 Lemma sim_step_in c st a cid pdu n st' rs :
-  sim c st a -> no_k1 c -> no_k2 c ->
+  sim c st a ->
   att_input c st cid pdu n = Some (st', rs) ->
-  sim c st' (fst (astep c a (OpIn cid pdu n))) /\ sat (snd (astep c a (OpIn cid pdu n))) (OBytes rs).
+  sim c st' (fst (astep c a (OpIn cid pdu n))) /\
+  (sat_cond c (snd (astep c a (OpIn cid pdu n))) -> sat c (snd (astep c a (OpIn cid pdu n))) (OBytes rs)).
 Proof.
-  intros Sm NK1 NK2 H.
+  intros Sm H.
   destruct (get_conn st cid) as [k|] eqn:G; [|unfold att_input in H; rewrite G in H; discriminate].
   destruct pdu as [|op t]; [unfold att_input in H; rewrite G in H; cbn in H; discriminate|].
   destruct (att_input_inv _ _ _ _ _ _ _ _ _ G H) as (Ho & b' & m & L & -> & D). clear H.
@@ -945,74 +988,74 @@ Proof.
     destruct t as [|lo [|hi [|x t']]].
     1,2,4: (match type of D with context [len ?l =? 3] =>
               replace (len l =? 3) with false in D by (symmetry; apply N.eqb_neq; rewrite ?len_cons; unfold len; cbn [length]; lia) end;
-            cbn [negb] in D; mon; split; [exact Sm|exact I]).
+            cbn [negb] in D; mon; split; [exact Sm|intros _; exact I]).
     replace (len [2; lo; hi] =? 3) with true in D by reflexivity. cbn [negb] in D.
     rewrite rd16_1 in D. rewrite G in D. unfold default_att_mtu in *.
     destruct (lo + 256 * hi <? 23) eqn:EL.
-    + mon. replace (23 <=? lo + 256 * hi) with false by (symmetry; apply N.leb_gt; apply N.ltb_lt; exact EL). split; [exact Sm|exact I].
+    + mon. replace (23 <=? lo + 256 * hi) with false by (symmetry; apply N.leb_gt; apply N.ltb_lt; exact EL). split; [exact Sm|intros _; exact I].
     + mon. replace (23 <=? lo + 256 * hi) with true by (symmetry; apply N.leb_le; apply N.ltb_ge; exact EL).
-      split; [|exact I]. apply sim_set_mtu; assumption. }
+      split; [|intros _; exact I]. apply sim_set_mtu; assumption. }
   destruct (op =? 10) eqn:E10.
   { apply N.eqb_eq in E10. subst op. cbn [N.eqb Pos.eqb] in D.
     destruct t as [|lo [|hi [|x t']]];
-      try (split; [eapply sim_reads; [exact Sm|eapply handle_read_same; exact D]|exact I]).
-    destruct (handle_read_sim c st a cid k lo hi b out_size n st' b' m Sm G NK1 Ho (eq_sym OL) D) as (Same & _ & Sat).
+      try (split; [eapply sim_reads; [exact Sm|eapply handle_read_same; exact D]|intros _; exact I]).
+    destruct (handle_read_sim c st a cid k lo hi b out_size n st' b' m Sm G Ho (eq_sym OL) D) as (Same & _ & Sat).
     split; [eapply sim_reads; eauto|exact Sat]. }
   destruct (op =? 12) eqn:E12.
   { apply N.eqb_eq in E12. subst op. cbn [N.eqb Pos.eqb] in D.
     destruct t as [|lo [|hi [|olo [|ohi [|x t']]]]];
-      try (split; [eapply sim_reads; [exact Sm|eapply handle_read_blob_same; exact D]|exact I]).
-    destruct (handle_read_blob_sim c st a cid k lo hi olo ohi b out_size n st' b' m Sm G NK1 Ho (eq_sym OL) D) as (Same & _ & Sat).
+      try (split; [eapply sim_reads; [exact Sm|eapply handle_read_blob_same; exact D]|intros _; exact I]).
+    destruct (handle_read_blob_sim c st a cid k lo hi olo ohi b out_size n st' b' m Sm G Ho (eq_sym OL) D) as (Same & _ & Sat).
     split; [eapply sim_reads; eauto|exact Sat]. }
   destruct (op =? 18) eqn:E18.
   { apply N.eqb_eq in E18. subst op. cbn [N.eqb Pos.eqb] in D.
     destruct t as [|lo [|hi data]].
     - unfold handle_write_request in D. rewrite rd_0 in D. cbn [len length N.of_nat Pos.of_succ_nat N.ltb N.compare Pos.compare Pos.compare_cont] in D.
-      mon. split; [exact Sm|exact I].
+      mon. split; [exact Sm|intros _; exact I].
     - unfold handle_write_request in D. rewrite rd_0 in D. cbn [len length N.of_nat Pos.of_succ_nat Pos.succ N.ltb N.compare Pos.compare Pos.compare_cont] in D.
-      mon. split; [exact Sm|exact I].
+      mon. split; [exact Sm|intros _; exact I].
     - destruct (handle_write_request_sim c st a cid k 18 lo hi data b out_size st' b' m Sm G Ho D) as [_ W].
-      destruct (attr_of c (lo + 256 * hi)) as [at_|]; [|split; [exact W|exact I]].
+      destruct (attr_of c (lo + 256 * hi)) as [at_|]; [|split; [exact W|intros _; exact I]].
       destruct W as [S1 T]. destruct (awrite c a cid at_ 0 data m_written) as [r a1]. cbn [fst snd] in *.
-      split; [exact S1|]. cbn [sat]. rewrite T. reflexivity. }
+      split; [exact S1|]. intros _. cbn [sat]. rewrite T. reflexivity. }
   destruct (op =? 82) eqn:E82.
   { apply N.eqb_eq in E82. subst op. cbn [N.eqb Pos.eqb] in D. unfold handle_write_command in D.
     destruct (handle_write_request c st cid (82 :: t) b out_size) as [[st1 [b1 m1]]|] eqn:EW; [|discriminate].
     apply some_inj in D. apply pair_inj in D. destruct D as [-> D]. apply pair_inj in D. destruct D as [-> <-].
     destruct t as [|lo [|hi data]].
     - unfold handle_write_request in EW. rewrite rd_0 in EW. cbn [len length N.of_nat Pos.of_succ_nat N.ltb N.compare Pos.compare Pos.compare_cont] in EW.
-      mon. split; [exact Sm|exact I].
+      mon. split; [exact Sm|intros _; exact I].
     - unfold handle_write_request in EW. rewrite rd_0 in EW. cbn [len length N.of_nat Pos.of_succ_nat Pos.succ N.ltb N.compare Pos.compare Pos.compare_cont] in EW.
-      mon. split; [exact Sm|exact I].
+      mon. split; [exact Sm|intros _; exact I].
     - destruct (handle_write_request_sim c st a cid k 82 lo hi data b out_size st' b' m1 Sm G Ho EW) as [_ W].
-      destruct (attr_of c (lo + 256 * hi)) as [at_|]; [|split; [exact W|exact I]].
-      destruct W as [S1 _]. split; [exact S1|exact I]. }
+      destruct (attr_of c (lo + 256 * hi)) as [at_|]; [|split; [exact W|intros _; exact I]].
+      destruct W as [S1 _]. split; [exact S1|intros _; exact I]. }
   destruct (op =? 22) eqn:E22.
   { apply N.eqb_eq in E22. subst op. cbn [N.eqb Pos.eqb] in D.
     destruct (wqueue c) as [qs|] eqn:Hq.
     2:{ unfold handle_prepare_write in D. rewrite rd_0, Hq in D. mon.
-        destruct t as [|lo [|hi [|olo [|ohi data]]]]; (split; [exact Sm|exact I]). }
+        destruct t as [|lo [|hi [|olo [|ohi data]]]]; (split; [exact Sm|intros _; exact I]). }
     destruct t as [|lo [|hi [|olo [|ohi data]]]];
       try (unfold handle_prepare_write in D; rewrite rd_0, Hq in D;
-           cbn [len length N.of_nat Pos.of_succ_nat Pos.succ N.ltb N.compare Pos.compare Pos.compare_cont] in D; mon; split; [exact Sm|exact I]).
+           cbn [len length N.of_nat Pos.of_succ_nat Pos.succ N.ltb N.compare Pos.compare Pos.compare_cont] in D; mon; split; [exact Sm|intros _; exact I]).
     unfold out_size in *. rewrite <- OL in D, Ho.
-    destruct (handle_prepare_write_sim c st a cid k qs lo hi olo ohi data _ n st' b' m Sm G NK2 Hq Ho D) as (_ & S1 & Sat).
-    split; assumption. }
+    destruct (handle_prepare_write_sim c st a cid k qs lo hi olo ohi data _ n st' b' m Sm G Hq Ho D) as (_ & S1 & Sat).
+    split; [exact S1|intros _; exact Sat]. }
   destruct (op =? 24) eqn:E24.
   { apply N.eqb_eq in E24. subst op. cbn [N.eqb Pos.eqb] in D.
     destruct (wqueue c) as [qs|] eqn:Hq.
     2:{ unfold handle_execute_write in D. rewrite rd_0, Hq in D. mon.
-        destruct t as [|flag [|x t']]; (split; [exact Sm|exact I]). }
+        destruct t as [|flag [|x t']]; (split; [exact Sm|intros _; exact I]). }
     destruct t as [|flag [|x t']].
     - unfold handle_execute_write in D. rewrite rd_0, Hq in D. cbn [len length N.of_nat Pos.of_succ_nat N.eqb Pos.eqb negb] in D.
-      mon. split; [exact Sm|exact I].
-    - destruct (handle_execute_write_sim c st a cid k qs flag b out_size st' b' m Sm G Hq Ho D) as (_ & S1 & Sat). split; assumption.
+      mon. split; [exact Sm|intros _; exact I].
+    - destruct (handle_execute_write_sim c st a cid k qs flag b out_size st' b' m Sm G Hq Ho D) as (_ & S1 & Sat). split; [exact S1|intros _; exact Sat].
     - unfold handle_execute_write in D. rewrite rd_0, Hq in D.
       replace (len (24 :: flag :: x :: t') =? 2) with false in D by (symmetry; apply N.eqb_neq; rewrite !len_cons; lia).
-      cbn [negb] in D. mon. split; [exact Sm|exact I]. }
+      cbn [negb] in D. mon. split; [exact Sm|intros _; exact I]. }
   (* every other opcode: nothing the reference state tracks changes *)
   apply N.eqb_neq in E2, E10, E12, E18, E82, E22, E24.
-  split; [|exact I].
+  split; [|intros _; exact I].
   destruct (op =? 1); [mon; exact Sm|].
   destruct (op =? 2) eqn:X2; [apply N.eqb_eq in X2; contradiction|].
   destruct (op =? 4); [mon; exact Sm|].
@@ -1031,4 +1074,254 @@ Proof.
     rewrite G in D. mon. unfold nq_step. destruct (NQueueModel.step (nq k) Confirm) as [q r]. cbn [fst].
     eapply sim_set_conn; eauto.
   - mon. exact Sm.
+Qed.
+
+(* ------------------------------------------------------------------ the other operations *)
+Lemma nq_step_aconn k o : aconn_of_conn (fst (nq_step k o)) = aconn_of_conn k.
+Proof. unfold nq_step. destruct (NQueueModel.step (nq k) o). reflexivity. Qed.
+
+Lemma unsent_indication_sim c st a cid kd : sim c st a -> sim c (unsent_indication st cid kd) a.
+Proof.
+  intros Sm. unfold unsent_indication. destruct kd; [exact Sm|]. destruct (get_conn st cid) as [k|] eqn:G; [|exact Sm].
+  eapply sim_set_conn; eauto using nq_step_aconn.
+Qed.
+
+(* l2cap_output: the notification queue and read counters only *)
+Lemma att_output_sim c st a cid n st' r : sim c st a -> att_output c st cid n = Some (st', r) -> sim c st' a.
+Proof.
+  intros Sm. unfold att_output. destruct (get_conn st cid) as [k|] eqn:G; [|discriminate].
+  pose proof (nq_step_aconn k Dequeue) as NA. destruct (nq_step k Dequeue) as [k1 r1]. cbn [fst] in NA.
+  assert (S1 : sim c (set_conn st cid k1) a) by (eapply sim_set_conn; eauto).
+  cbv zeta.
+  destruct r1; try (intros H; mon; exact S1).
+  match goal with |- context [match ?e with Some _ => _ | None => _ end] => destruct e as [[kd i]|] end; [|intros H; mon; exact S1].
+  destruct (find_notification_data_by_index c (N.of_nat i)) as [ai ci].
+  match goal with |- context [if ?x then _ else _] => destruct x end; [|intros H; mon; apply unsent_indication_sim; exact S1].
+  destruct (attribute_at c ai) as [at_|]; [|discriminate].
+  match goal with |- context [access_read ?c' ?s ?i' ?a' ?x ?o ?l] =>
+    destruct (access_read c' s i' a' x o l) as [[[st2 rc] d]|] eqn:ER; [|discriminate] end.
+  apply access_read_same in ER.
+  destruct rc; intros H; mon; try apply unsent_indication_sim; eapply sim_reads; eauto.
+Qed.
+
+Lemma queue_all_aconn o : forall l l' rs, queue_all l o = (l', rs) -> map aconn_of_conn l' = map aconn_of_conn l.
+Proof.
+  induction l as [|k t IH]; intros l' rs H; cbn [queue_all] in H.
+  - inv H. reflexivity.
+  - pose proof (nq_step_aconn k o) as NA. destruct (nq_step k o) as [k' r]. cbn [fst] in NA.
+    destruct (queue_all t o) as [t' rs'] eqn:E. inv H. cbn [map]. rewrite NA, (IH _ _ eq_refl). reflexivity.
+Qed.
+
+Lemma request_sim c st a kd data st' rs : sim c st a -> request st kd data = (st', rs) -> sim c st' a.
+Proof.
+  intros [H1 H2 H3 H4 H5 H6]. unfold request. destruct (queue_all (conns st) _) as [l rs'] eqn:E. intros H. inv H.
+  apply queue_all_aconn in E. constructor; cbn; try assumption. rewrite E. exact H3.
+Qed.
+
+Lemma sim_init c : sim c (srv_init c) (ainit c).
+Proof.
+  constructor; cbn [srv_init ainit as_vals as_wlog as_conns as_owner as_queue vals hlogs conns wq_owner wq_elems].
+  - reflexivity.
+  - intros _. unfold wlog_of. simpl hlogs. rewrite map_map. reflexivity.
+  - reflexivity.
+  - reflexivity.
+  - reflexivity.
+  - constructor.
+Qed.
+
+Lemma firstn_min_eq (A : Type) (data old : list A) :
+  firstn (N.to_nat (N.min (len data) (len old))) data = firstn (length old) data
+  /\ N.to_nat (N.min (len data) (len old)) = length (firstn (length old) data).
+Proof.
+  unfold len. rewrite firstn_length. split; [|lia].
+  destruct (Nat.le_ge_cases (length data) (length old)) as [L|L].
+  - replace (N.to_nat (N.min (N.of_nat (length data)) (N.of_nat (length old)))) with (length data) by lia.
+    rewrite !firstn_all2 by lia. reflexivity.
+  - replace (N.to_nat (N.min (N.of_nat (length data)) (N.of_nat (length old)))) with (length old) by lia. reflexivity.
+Qed.
+
+(* every operation: the reference state stays related, and the model's output is what the reference expects *)
+Lemma sim_step c st a o :
+  sim c st a -> snd (srv_step c st o) <> OFault ->
+  sim c (fst (srv_step c st o)) (fst (astep c a o)) /\
+  (sat_cond c (snd (astep c a o)) -> sat c (snd (astep c a o)) (snd (srv_step c st o))).
+Proof.
+  intros Sm NF. destruct o as [cid pdu n|cid n|cid e p|cid|by_uuid kd g|g|g data].
+  - (* l2cap_input *)
+    cbn [srv_step] in *. destruct (att_input c st cid pdu n) as [[st' rs]|] eqn:E; [|cbn in NF; contradiction].
+    cbn [fst snd]. eapply sim_step_in; eauto.
+  - (* l2cap_output *)
+    cbn [srv_step astep] in *. destruct (att_output c st cid n) as [[st' rs]|] eqn:E; [|cbn in NF; contradiction].
+    cbn [fst snd]. split; [eapply att_output_sim; eauto|intros _; exact I].
+  - (* link security *)
+    cbn [srv_step astep fst snd]. split; [|intros _; exact I].
+    destruct (get_conn st cid) as [k|] eqn:G; cbn [fst].
+    + rewrite (sim_conn c st a cid k Sm G). destruct Sm as [H1 H2 H3 H4 H5 H6]. constructor; cbn; try assumption.
+      rewrite H3, map_upd. reflexivity.
+    + destruct Sm as [H1 H2 H3 H4 H5 H6]. constructor; cbn; try assumption.
+      rewrite upd_out; [exact H3|]. rewrite H3, map_length. apply nth_error_None. exact G.
+  - (* disconnect *)
+    cbn [srv_step astep fst snd]. split; [|intros _; exact I].
+    pose proof (release_sim c st a cid true Sm) as S1. destruct S1 as [H1 H2 H3 H4 H5 H6]. constructor; cbn; try assumption.
+    cbn in H3. rewrite H3, map_upd. reflexivity.
+  - (* notify / indicate *)
+    cbn [srv_step astep fst snd] in *. split; [|intros _; exact I].
+    destruct by_uuid.
+    + destruct (by_uuid_available c kd g); [|exact Sm]. unfold notify_by_uuid in *.
+      destruct (nth_error (all_chars c) g) as [x|]; [|exact Sm].
+      destruct (find_notification_by_uuid c (c_uuid (snd x))) as [d|]; [|exact Sm].
+      destruct (request st kd d) as [st' rs] eqn:E. cbn [fst]. eapply request_sim; eauto.
+    + destruct (by_value_available c g); [|exact Sm]. unfold notify_by_value in *.
+      destruct (find_notification_data c g) as [d|]; [|exact Sm].
+      destruct (request st kd d) as [st' rs] eqn:E. cbn [fst]. eapply request_sim; eauto.
+  - (* the harness looks at a variable *)
+    cbn [srv_step astep]. destruct (has_var c g) as [[w h]|]; cbn [fst snd]; [|split; [exact Sm|intros _; exact I]].
+    split; [exact Sm|]. intros _. cbn [sat]. unfold get_val. rewrite (sim_vals Sm).
+    eexists. split; [reflexivity|]. intros NK. destruct h; [|exact I]. rewrite (sim_wlog Sm NK). unfold wlog_of.
+    pose proof (map_nth (fun x : N * N * N => (snd (fst x), snd x)) (hlogs st) (0, 0, 0) g) as M. cbn [fst snd] in M. rewrite M.
+    destruct (nth g (hlogs st) (0, 0, 0)) as [[r w'] e']. cbn [fst snd]. split; reflexivity.
+  - (* the application sets a variable *)
+    cbn [srv_step astep]. destruct (has_var c g) as [[[|] h]|]; cbn [fst snd]; try (split; [exact Sm|intros _; exact I]).
+    split; [|intros _; exact I]. destruct Sm as [H1 H2 H3 H4 H5 H6]. constructor; cbn; try assumption.
+    rewrite H1. f_equal. unfold get_val, splice, takeN, dropN. cbn [N.to_nat firstn Nat.add app].
+    destruct (firstn_min_eq N data (nth g (vals st) [])) as [F1 F2]. rewrite F1, F2. reflexivity.
+Qed.
+
+(* ================================================================== Part 4: monitors over the reference semantics *)
+Lemma dead_accepts judge c tr : forall pos, monitor_from_with judge c None pos tr = None.
+Proof. induction tr as [|[o r] t IH]; intros pos; cbn [monitor_from_with mstep_with]; [reflexivity|apply IH]. Qed.
+
+Lemma list_eqb_refl l : list_eqb l l = true.
+Proof. induction l as [|x t IH]; cbn; [reflexivity|]. rewrite N.eqb_refl, IH. reflexivity. Qed.
+
+(* a monitor whose judgement accepts every output that meets the expectation accepts every trace of the model:
+   for every configuration, every state related to the monitor's reference state, histories of any length *)
+Theorem monitor_sound_with (judge : cfg -> astate -> srv_op -> expect -> srv_out -> verdict) (P : srv_op -> bool) c :
+  (forall a o x r, P o = true -> (sat_cond c x -> sat c x r) -> judge c a o x r = Ok) ->
+  forall ops st a pos, sim c st a -> forallb P ops = true ->
+    monitor_from_with judge c (Some a) pos (srv_run c st ops) = None.
+Proof.
+  intros J. induction ops as [|o t IH]; intros st a pos Sm HP; [reflexivity|].
+  cbn [forallb] in HP. apply andb_true_iff in HP. destruct HP as [Po Pt].
+  cbn [srv_run]. destruct (srv_step c st o) as [st' r] eqn:E. cbn [monitor_from_with].
+  assert (NFcase : r = OFault \/ r <> OFault) by (destruct r; (left; reflexivity) || (right; discriminate)).
+  destruct NFcase as [->|NF].
+  - cbn [mstep_with]. apply dead_accepts.
+  - pose proof (sim_step c st a o Sm) as SS. rewrite E in SS. cbn [fst snd] in SS. destruct (SS NF) as [S' Sat].
+    assert (M : mstep_with judge c (Some a) o r = (judge c a o (snd (astep c a o)) r, Some (fst (astep c a o)))).
+    { unfold mstep_with. destruct (astep c a o) as [a' x]. destruct r; try reflexivity. contradiction. }
+    rewrite M. rewrite (J a o _ r Po Sat). apply IH; assumption.
+Qed.
+
+(* ================================================================== Part 5: value and CCCD attributes belong to declared characteristics *)
+Lemma char_attribute_at_char s c g cci i s' ch' :
+  (exists g' cci', char_attribute_at s c g cci i = Some (AValue s' ch' g' cci') /\ g' = g
+   \/ char_attribute_at s c g cci i = Some (ACccd s' ch' cci')) -> s' = s /\ ch' = c.
+Proof.
+  unfold char_attribute_at, char_attrs. intros (g' & cci' & H).
+  destruct (N.to_nat i) as [|[|k]] eqn:E; cbn [nth_error] in H.
+  - destruct H as [[H _]|H]; discriminate.
+  - destruct H as [[H _]|H]; [inversion H; split; reflexivity|discriminate].
+  - assert (HI : In (ACccd s' ch' cci') (char_tail_attrs s c cci) \/ (exists g'', In (AValue s' ch' g'' cci') (char_tail_attrs s c cci))).
+    { destruct H as [[H _]|H]; apply nth_error_In in H; [right; eexists; exact H|left; exact H]. }
+    unfold char_tail_attrs in HI. destruct HI as [HI|[g'' HI]].
+    + apply in_app_or in HI. destruct HI as [HI|HI].
+      * destruct (has_cccd c); [destruct HI as [HI|[]]; inversion HI; split; reflexivity|destruct HI].
+      * apply in_app_or in HI. destruct HI as [HI|HI].
+        -- destruct (c_name c); [destruct HI as [HI|[]]; discriminate|destruct HI].
+        -- apply in_map_iff in HI. destruct HI as [d [HI _]]. discriminate.
+    + apply in_app_or in HI. destruct HI as [HI|HI].
+      * destruct (has_cccd c); [destruct HI as [HI|[]]; discriminate|destruct HI].
+      * apply in_app_or in HI. destruct HI as [HI|HI].
+        -- destruct (c_name c); [destruct HI as [HI|[]]; discriminate|destruct HI].
+        -- apply in_map_iff in HI. destruct HI as [d [HI _]]. discriminate.
+Qed.
+
+Lemma char_attribute_at_value_g s c g cci i s' ch' g' cci' :
+  char_attribute_at s c g cci i = Some (AValue s' ch' g' cci') -> g' = g.
+Proof.
+  unfold char_attribute_at, char_attrs. intros H.
+  destruct (N.to_nat i) as [|[|k]] eqn:E; cbn [nth_error] in H; [discriminate|inversion H; reflexivity|].
+  apply nth_error_In in H. unfold char_tail_attrs in H.
+  apply in_app_or in H. destruct H as [H|H].
+  - destruct (has_cccd c); [destruct H as [H|[]]; discriminate|destruct H].
+  - apply in_app_or in H. destruct H as [H|H].
+    + destruct (c_name c); [destruct H as [H|[]]; discriminate|destruct H].
+    + apply in_map_iff in H. destruct H as [d [H _]]. discriminate.
+Qed.
+
+(* the characteristic of a value / CCCD attribute is one of the service's, at position g' - g *)
+Lemma chars_attribute_at_char s cs : forall g cci i s' ch',
+  ((exists g' cci', chars_attribute_at s cs g cci i = Some (AValue s' ch' g' cci')) ->
+   exists g' cci', chars_attribute_at s cs g cci i = Some (AValue s' ch' g' cci') /\ s' = s /\ (g <= g')%nat /\ nth_error cs (g' - g) = Some ch')
+  /\ (forall cci', chars_attribute_at s cs g cci i = Some (ACccd s' ch' cci') -> s' = s /\ In ch' cs).
+Proof.
+  induction cs as [|c t IH]; intros g cci i s' ch'; cbn [chars_attribute_at]; [split; [intros (? & ? & H)|intros ? H]; discriminate|].
+  destruct (i <? char_nattrs c) eqn:E.
+  - split.
+    + intros (g' & cci' & H). pose proof (char_attribute_at_value_g _ _ _ _ _ _ _ _ _ H) as ->.
+      destruct (char_attribute_at_char s c g cci i s' ch') as [-> ->]; [exists g, cci'; left; split; [exact H|reflexivity]|].
+      exists g, cci'. repeat split; auto. rewrite Nat.sub_diag. reflexivity.
+    + intros cci' H. destruct (char_attribute_at_char s c g cci i s' ch') as [-> ->]; [exists O, cci'; right; exact H|].
+      split; [reflexivity|left; reflexivity].
+  - destruct (IH (S g) (cci + char_nccc c) (i - char_nattrs c) s' ch') as [I1 I2]. split.
+    + intros Hex. destruct (I1 Hex) as (g' & cci' & H & -> & Hg & Hn). exists g', cci'. repeat split; auto; [lia|].
+      replace (g' - g)%nat with (S (g' - S g)) by lia. exact Hn.
+    + intros cci' H. destruct (I2 cci' H) as [-> Hin]. split; [reflexivity|right; exact Hin].
+Qed.
+
+Lemma svcs_attribute_at_char ss : forall g cci i s' ch',
+  ((exists g' cci', svcs_attribute_at ss g cci i = Some (AValue s' ch' g' cci')) ->
+   exists g' cci', svcs_attribute_at ss g cci i = Some (AValue s' ch' g' cci') /\ (g <= g')%nat /\
+                   nth_error (flat_map (fun s => map (fun ch => (s, ch)) (s_chars s)) ss) (g' - g) = Some (s', ch'))
+  /\ (forall cci', svcs_attribute_at ss g cci i = Some (ACccd s' ch' cci') ->
+        In (s', ch') (flat_map (fun s => map (fun ch => (s, ch)) (s_chars s)) ss)).
+Proof.
+  induction ss as [|s t IH]; intros g cci i s' ch'; cbn [svcs_attribute_at flat_map]; [split; [intros (? & ? & H)|intros ? H]; discriminate|].
+  destruct (i <? svc_nattrs s) eqn:E.
+  - unfold svc_attribute_at. destruct (i <? svc_nsattrs s).
+    + split; [intros (g' & cci' & H)|intros cci' H]; (destruct (i =? 0); [discriminate|]);
+        destruct (nth_error (s_includes s) (N.to_nat (i - 1))); discriminate.
+    + destruct (chars_attribute_at_char s (s_chars s) g cci (i - svc_nsattrs s) s' ch') as [C1 C2]. split.
+      * intros Hex. destruct (C1 Hex) as (g' & cci' & H & -> & Hg & Hn). exists g', cci'. repeat split; auto.
+        rewrite nth_error_app1 by (rewrite map_length; apply nth_error_Some; congruence).
+        rewrite nth_error_map, Hn. reflexivity.
+      * intros cci' H. destruct (C2 cci' H) as [-> Hin]. apply in_or_app. left. apply in_map. exact Hin.
+  - destruct (IH (g + length (s_chars s))%nat (cci + svc_nccc s) (i - svc_nattrs s) s' ch') as [I1 I2]. split.
+    + intros Hex. destruct (I1 Hex) as (g' & cci' & H & Hg & Hn). exists g', cci'. repeat split; auto; [lia|].
+      rewrite nth_error_app2 by (rewrite map_length; lia). rewrite map_length.
+      replace (g' - g - length (s_chars s))%nat with (g' - (g + length (s_chars s)))%nat by lia. exact Hn.
+    + intros cci' H. apply in_or_app. right. exact (I2 cci' H).
+Qed.
+
+(* the value attribute with global number g belongs to the g-th declared characteristic *)
+Lemma attribute_at_value c i s ch g cci :
+  attribute_at c i = Some (AValue s ch g cci) -> nth_error (all_chars c) g = Some (s, ch).
+Proof.
+  unfold attribute_at, all_chars. intros H.
+  destruct (svcs_attribute_at_char (services c) O 0 i s ch) as [C1 _].
+  destruct (C1 (ex_intro _ g (ex_intro _ cci H))) as (g' & cci' & H' & _ & Hn).
+  rewrite H in H'. inversion H'; subst. rewrite Nat.sub_0_r in Hn. exact Hn.
+Qed.
+
+Lemma attribute_at_cccd c i s ch cci : attribute_at c i = Some (ACccd s ch cci) -> In (s, ch) (all_chars c).
+Proof.
+  unfold attribute_at, all_chars. intros H.
+  destruct (svcs_attribute_at_char (services c) O 0 i s ch) as [_ C2]. exact (C2 cci H).
+Qed.
+
+(* decidable sufficient conditions for the two hypotheses *)
+Definition no_k1_b (c : cfg) : bool := forallb (fun x => negb (k1 (snd x))) (all_chars c).
+Definition no_k2_b (c : cfg) : bool := forallb (fun x => negb (k2 (snd x))) (all_chars c).
+
+Lemma no_k1_b_sound c : no_k1_b c = true -> no_k1 c.
+Proof.
+  intros H i s ch g cci HA. apply attribute_at_value in HA. apply nth_error_In in HA.
+  unfold no_k1_b in H. rewrite forallb_forall in H. specialize (H _ HA). cbn [snd] in H. apply negb_true_iff in H. exact H.
+Qed.
+
+Lemma no_k2_b_sound c : no_k2_b c = true -> no_k2 c.
+Proof.
+  intros H i s ch g cci HA. apply attribute_at_value in HA. apply nth_error_In in HA.
+  unfold no_k2_b in H. rewrite forallb_forall in H. specialize (H _ HA). cbn [snd] in H. apply negb_true_iff in H. exact H.
 Qed.
